@@ -26,6 +26,10 @@ def simple_adapter(seed=0, n_sensors=2, k=1, config_kwargs=None):
     if n_sensors >= 2:
         sensor_models = {"velocity": {"v": v}, "position": {"x": x, "xv": x + v}}
         sensor_noises = {"position": {"xv": 1.5, "x": 2.0}, "velocity": {"v": 0.5}}
+    if n_sensors >= 3:
+        # three sensors of three different sizes (3, 2, 1 in key order), none equal to the number of controls unless k says so
+        sensor_models["combined"] = {"c2": 2 * x, "c1": x - v, "c3": 3 * v}
+        sensor_noises["combined"] = {"c3": 0.75, "c1": 1.25, "c2": 1.75}
     pn = {a: 1.0} if k == 1 else ({b: 0.25, a: 1.0} if k == 2 else {})
     cfg = py.Config(**(config_kwargs or {"innovation_filtering": None}))
     est = py.SklearnEKFAdapter.Create(model, pn, sensor_models, sensor_noises, config=cfg)
@@ -79,12 +83,13 @@ def fit_problems(seed=0, rows=8, n_sensors=2, k=1):
     return problems, info
 
 
-def transform_problems(seed=0, rows=5, n_sensors=2, k=1, k_edit=None, integer_data=False):
+def transform_problems(seed=0, rows=5, n_sensors=2, k=1, k_edit=None, integer_data=False, config_extra=None):
     """transform / mahalanobis / score vs running the exported filter by hand (predict dt=0.1, sensors in key order).
     integer_data: the same check on a data matrix of INTEGER dtype (a finite data matrix like any other; the by-hand run uses its values as floats)."""
     import math
 
-    py, ui, est, info = simple_adapter(seed, n_sensors, k, {"innovation_filtering": k_edit})
+    # config_extra: further Config fields at NON-default values (the adapter's step is fixed, whatever max_dt_sec says)
+    py, ui, est, info = simple_adapter(seed, n_sensors, k, {"innovation_filtering": k_edit, **(config_extra or {})})
     X = data_for(info, rows, seed)
     Xin = X
     if integer_data:
@@ -271,3 +276,47 @@ def fit_with_succeeding_optimiser(seed=0, config_kwargs=None):
     if any(abs(after["process_noise"].get(k, float('nan')) - v) > 1e-12 for k, v in want_pn.items()):
         problems.append(f"fitted process noise {after['process_noise']} is not the optimiser's solution {want_pn}")
     return problems, info
+
+
+def flatten_round_trip_problems(seed=0):
+    """_flatten_scoring_params / _inverse_flatten_scoring_params on estimators of every shape: 0-2 controls x 1-3 sensors of sizes 3, 2, 1
+    (so that the number of controls equals, exceeds and falls short of a sensor's size).  Expected values are written from the
+    definition: [process noise by control name] + [each sensor in key order: its noises by reading name]."""
+    problems = []
+    for k in (0, 1, 2):
+        for ns in (1, 2, 3):
+            py, ui, est, info = simple_adapter(seed, ns, k)
+            p = est.get_params()
+            want = [float(v) for _, v in sorted(((str(c), v) for c, v in p["process_noise"].items()))]
+            for key in sorted(p["sensor_noises"]):
+                want += [float(v) for _, v in sorted((str(r), v) for r, v in p["sensor_noises"][key].items())]
+            try:
+                got = [float(v) for v in est._flatten_scoring_params()]
+            except Exception as e:
+                problems.append(f"_flatten_scoring_params ({k} controls, {ns} sensors) raised {type(e).__name__}: {e}")
+                continue
+            if got != want:
+                problems.append(f"_flatten_scoring_params ({k} controls, {ns} sensors) = {got}, expected {want}")
+                continue
+            fresh = [10.0 + i for i in range(len(want))]
+            try:
+                out = est._inverse_flatten_scoring_params(list(fresh))
+            except Exception as e:
+                problems.append(f"_inverse_flatten_scoring_params ({k} controls, sensors of sizes {[len(m) for _, m in sorted(p['sensor_noises'].items())]}) raised {type(e).__name__}: {e}")
+                continue
+            pos = 0
+            exp_pn = {}
+            for c in sorted(str(c) for c in p["process_noise"]):
+                exp_pn[c] = fresh[pos]
+                pos += 1
+            exp_sn = {}
+            for key in sorted(p["sensor_noises"]):
+                exp_sn[key] = {}
+                for r in sorted(str(r) for r in p["sensor_noises"][key]):
+                    exp_sn[key][r] = fresh[pos]
+                    pos += 1
+            got_pn = {str(c): float(v) for c, v in out["process_noise"].items()}
+            got_sn = {key: {str(r): float(v) for r, v in m.items()} for key, m in out["sensor_noises"].items()}
+            if got_pn != exp_pn or got_sn != exp_sn:
+                problems.append(f"_inverse_flatten_scoring_params({fresh}) with {k} controls and sensors of sizes {[len(m) for _, m in sorted(p['sensor_noises'].items())]} gave process noise {got_pn}, sensor noises {got_sn}; by name and key order it is {exp_pn}, {exp_sn}")
+    return problems
